@@ -51,10 +51,16 @@ type guardSpec struct {
 // last write needs an unconditional last notification), name prefix of the notifying struct's functions.
 // adsChangedCallback is invoked per CHANGED service from a loop in a deferred closure, so it is
 // conditional by design: order only.
-var notifiers = []string{
-	`("countersChangedCallback", ["Allocator.poolToCounters"], true, "Allocator.")`,
-	`("adsChangedCallback", ["bgpController.activeAds"], false, "bgpController.")`,
-	`("onStatusChange", ["Announce.ips"], true, "layer2Controller.")`,
+// The fields are not named here: they are the guarded fields (declared or inferred) the fetcher of the
+// struct reads, so that a renamed / re-represented field keeps its notification obligation.
+var notifiers = []struct {
+	callback, fetcherStruct string
+	strict                  bool
+	prefix                  string
+}{
+	{"countersChangedCallback", "Allocator", true, "Allocator."},
+	{"adsChangedCallback", "bgpController", false, "bgpController."},
+	{"onStatusChange", "Announce", true, "layer2Controller."},
 }
 
 var notifySpecs = []guardSpec{
@@ -133,6 +139,7 @@ type fileCtx struct {
 	marks                           bool                // bracket conditionally executed blocks with CondB / CondE (notification analysis)
 	savedUnstructured, savedMayLeak []string
 	plain                           map[string]string // package-level function name -> qualified name
+	stale                           []string          // declared guarded fields the struct does not have
 }
 
 var problems []string
@@ -160,6 +167,8 @@ func main() {
 	var fetchers []string
 	var covered []string
 	var skeletons []string
+	var staleDecl []string
+	fetched := map[string][]string{} // struct -> guarded fields (declared or inferred) its status fetcher reads
 	for _, sp := range specs {
 		fc := load(repo, sp)
 		if fc == nil {
@@ -168,15 +177,27 @@ func main() {
 		covered = append(covered, fmt.Sprintf("%s (%s, mutex %s)", fc.sname, filepath.Dir(sp.file), fc.mutexName))
 		declared := map[string]bool{}
 		for _, g := range sp.guarded {
+			if fc.fieldType[g] == nil {
+				continue // stale declaration, see load
+			}
 			declared[g] = true
 			guardsDeclared = append(guardsDeclared, [2]string{fc.q(g), fc.mutexName})
 		}
+		var inferredHere []string
 		if sp.infer {
 			for _, g := range fc.inferGuards() {
 				inferable = append(inferable, [2]string{fc.mutexName, fc.q(g)})
 				if !declared[g] {
 					guardsInferred = append(guardsInferred, [2]string{fc.q(g), fc.mutexName})
+					inferredHere = append(inferredHere, fc.q(g))
 				}
+			}
+		}
+		for _, g := range fc.stale {
+			staleDecl = append(staleDecl, fmt.Sprintf("(%q, %q, %s)", fc.q(g), fc.mutexName, strList(inferredHere)))
+			if len(inferredHere) == 0 && len(declared) == 0 {
+				// nothing replaces the declaration: the struct's mutex guards no field at all
+				problem("%s: declared guarded field %s.%s is missing and no field of the struct is written under %s", sp.file, sp.strct, g, fc.mutexName)
 			}
 		}
 		if sp.strct == "Listener" {
@@ -188,6 +209,11 @@ func main() {
 			q := sp.strct + "." + m
 			if fd := fc.funcs[q]; fd != nil {
 				fetchers = append(fetchers, fmt.Sprintf("(%q, %q, %s)", q, sp.strct, strList(receiverFields(fd))))
+				for _, f := range receiverFields(fd) {
+					if fc.guarded[f] {
+						fetched[sp.strct] = append(fetched[sp.strct], fc.q(f))
+					}
+				}
 			} else {
 				problem("%s: fetcher %s not found", sp.file, q)
 			}
@@ -327,7 +353,9 @@ func main() {
 			if !sp.noMutex {
 				fc.inferGuards()
 				for _, g := range sp.guarded {
-					fc.guarded[g] = true
+					if fc.fieldType[g] != nil {
+						fc.guarded[g] = true
+					}
 				}
 			}
 			fc.marks = true
@@ -390,7 +418,20 @@ func main() {
 	}
 	b.WriteString("].\nDefinition nentries : list string := " + strList(nentries) + ".\n")
 	b.WriteString("(* callback, fields its consumer's fetcher reads, strict?, prefix of the notifying struct's functions *)\n")
-	b.WriteString("Definition notifiers : list (string * list string * bool * string) := [\n  " + strings.Join(notifiers, ";\n  ") + "\n].\n\n")
+	var nots []string
+	for _, n := range notifiers {
+		if len(fetched[n.fetcherStruct]) == 0 {
+			problem("notifier %s: the fetcher of %s reads no guarded field", n.callback, n.fetcherStruct)
+		}
+		strict := "false"
+		if n.strict {
+			strict = "true"
+		}
+		nots = append(nots, fmt.Sprintf("(%q, %s, %s, %q)", n.callback, strList(fetched[n.fetcherStruct]), strict, n.prefix))
+	}
+	b.WriteString("Definition notifiers : list (string * list string * bool * string) := [\n  " + strings.Join(nots, ";\n  ") + "\n].\n\n")
+	b.WriteString("(* DECLARED guarded fields the struct no longer has: (field, mutex, fields inferred guarded instead).\n   Coverage note only; the struct is checked against the inferred discipline. *)\n")
+	b.WriteString("Definition stale_declarations : list (string * string * list string) := [" + strings.Join(staleDecl, "; ") + "].\n")
 	var binds [][2]string
 	if bindingOK {
 		for k, v := range callbackBinding {
@@ -710,7 +751,12 @@ func load(repo string, sp guardSpec) *fileCtx {
 				}
 				for _, g := range sp.guarded {
 					if fc.fieldType[g] == nil {
-						problem("%s: struct %s has no field %s", sp.file, sp.strct, g)
+						// a DECLARED guarded field the struct no longer has (renamed / re-represented):
+						// not a defect of the code.  The declaration is dropped, the struct's discipline
+						// is then the INFERRED one (inferGuards), and the stale declaration is reported
+						// as a coverage note (stale_declarations).
+						fc.stale = append(fc.stale, g)
+						continue
 					}
 					fc.guarded[g] = true
 				}
